@@ -76,7 +76,76 @@ func vfC08Tree(env *vfc.Env) {
 			ki := NewKeyInfoFromBytes([]byte(fmt.Sprintf("k%x", it.Hash)), it.Hash, false)
 			t.set(ki, &Meta{Ver: it.Ver, ValueHash: it.Vhash}, pos)
 		}
-		for i := 0; i < a.Ops; i++ {
+		// The history tree is listed, "updated" and dumped at random points of its
+		// history (the cached node hashes and counts must not depend on when that
+		// happened); at one point it is dumped and loaded into a third tree, which
+		// then receives the rest of the history as well.
+		bpfx := ref.PrefixString(ref.Digits(uint64(bucket)<<uint(64-4*depth), depth))
+		var tree3 *HTree
+		var lerr error
+		dumpPath := filepath.Join(env.Work, id+".hash")
+		loadAt := r.Intn(a.Ops + 1)
+		if r.Intn(4) == 0 {
+			loadAt = a.Ops
+		}
+		listEvery := r.Pick(0, 3, 25, 200, 1000)
+		midChecks := 0
+		midList := func(i int) {
+			var p string
+			switch r.Intn(4) {
+			case 0:
+				p = bpfx
+			case 1:
+				tree.ListTop()
+				res.Event("mid_history.listtop", 1)
+				return
+			default:
+				d := ref.Digits(hashes[r.Intn(pool)], 16)
+				p = ref.PrefixString(d[:r.Range(depth, minInt(16, depth+height+1))])
+			}
+			got, err := vfTreeList(tree, p)
+			res.Event("mid_history.listings", 1)
+			if err != nil {
+				res.Violate(id, "c08:listdir-error", fmt.Sprintf("ListDir(%q) at op %d: %v", p, i, err), nil)
+				return
+			}
+			if midChecks < 12 { // compare some of them with the reference of the content at that moment
+				midChecks++
+				mm := &ref.Merkle{Depth: depth, Height: height}
+				for _, it := range content {
+					mm.Items = append(mm.Items, it)
+				}
+				sort.Slice(mm.Items, func(i, j int) bool { return mm.Items[i].Hash < mm.Items[j].Hash })
+				var digs []int
+				for _, ch := range p {
+					digs = append(digs, strings.IndexRune("0123456789abcdef", ch))
+				}
+				want := mm.List(digs)
+				res.Eval(1)
+				if d := want.Check(got); d != "" {
+					res.Violate(id, "c08:mid-history-listing-vs-reference:"+want.Kind, fmt.Sprintf("prefix %q after %d ops (%d buckets, height %d, list every ~%d ops): %s", p, i, nb, height, listEvery, d), map[string]interface{}{"buckets": nb, "height": height, "bucket": bucket, "pool": pool, "leaves": nLeaves, "ops": a.Ops})
+				}
+			}
+		}
+		for i := 0; i <= a.Ops; i++ {
+			if i == loadAt {
+				tree.dump(dumpPath)
+				tree3 = newHTree(depth, bucket, height)
+				lerr = tree3.load(dumpPath)
+				where := "middle"
+				if i == 0 {
+					where = "start"
+				} else if i == a.Ops {
+					where = "end"
+				}
+				res.Event("dump_load_at."+where, 1)
+			}
+			if i == a.Ops {
+				break
+			}
+			if listEvery > 0 && r.Intn(listEvery) == 0 {
+				midList(i)
+			}
 			h := hashes[r.Intn(pool)]
 			pos := Position{r.Intn(50), uint32(r.Intn(1<<20)) << 8}
 			old := content[h]
@@ -85,11 +154,18 @@ func vfC08Tree(env *vfc.Env) {
 				if old.Ver > 0 {
 					it := ref.MItem{Hash: h, Ver: -old.Ver - 1}
 					apply(tree, it, pos)
+					if tree3 != nil && lerr == nil {
+						apply(tree3, it, pos)
+					}
 					content[h] = it
 				}
 			case 2: // tombstone replay after a restart removes the entry
 				ki := NewKeyInfoFromBytes([]byte("x"), h, false)
 				tree.remove(ki, Position{-1, 0})
+				if tree3 != nil && lerr == nil {
+					ki3 := NewKeyInfoFromBytes([]byte("x"), h, false)
+					tree3.remove(ki3, Position{-1, 0})
+				}
 				delete(content, h)
 			default:
 				v := old.Ver
@@ -98,6 +174,9 @@ func vfC08Tree(env *vfc.Env) {
 				}
 				it := ref.MItem{Hash: h, Ver: v + 1, Vhash: uint16(r.Uint64())}
 				apply(tree, it, pos)
+				if tree3 != nil && lerr == nil {
+					apply(tree3, it, pos)
+				}
 				content[h] = it
 			}
 		}
@@ -120,11 +199,7 @@ func vfC08Tree(env *vfc.Env) {
 		for _, i := range r.Perm(len(m.Items)) {
 			apply(tree2, m.Items[i], Position{1, uint32(i) << 8})
 		}
-		// third tree: dump + load
-		dumpPath := filepath.Join(env.Work, id+".hash")
-		tree.dump(dumpPath)
-		tree3 := newHTree(depth, bucket, height)
-		lerr := tree3.load(dumpPath)
+		// third tree: dumped + loaded at op loadAt (see above), then given the rest of the history
 		// prefixes
 		bp := ref.PrefixString(ref.Digits(uint64(bucket)<<uint(64-4*depth), depth))
 		prefixes := map[string]bool{bp: true}
@@ -141,7 +216,7 @@ func vfC08Tree(env *vfc.Env) {
 			copy(d, ref.Digits(uint64(bucket)<<uint(64-4*depth), depth))
 			prefixes[ref.PrefixString(d[:r.Range(depth, 16)])] = true
 		}
-		replay := map[string]interface{}{"buckets": nb, "height": height, "bucket": bucket, "pool": pool, "leaves": nLeaves, "ops": a.Ops}
+		replay := map[string]interface{}{"buckets": nb, "height": height, "bucket": bucket, "pool": pool, "leaves": nLeaves, "ops": a.Ops, "load_at": loadAt, "list_every": listEvery}
 		maxLeaf := 0
 		for _, lp := range leafPrefixes {
 			n := 0
